@@ -138,9 +138,11 @@ const (
 	Panicked = 3
 )
 
-// Classify maps the error (or panic text) of a DB method to an outcome class.  dbErr is set when the
-// error came from the database after a statement was issued.
-func Classify(err error, panicText string) (class int, dbErr bool) {
+// Classify maps the error (or panic text) of a DB method to an outcome class.  stmtFailed says whether the
+// server answered one of the call's statements with an error; dbErr reports that the error came from the
+// database after a statement was issued.  An error that is neither a bad-input error nor a database error
+// is a rejection: the class does not depend on the wording of the limit-check messages.
+func Classify(err error, panicText string, stmtFailed bool) (class int, dbErr bool) {
 	if panicText != "" {
 		if strings.Contains(panicText, "comparing uncomparable") {
 			return Rejected, false
@@ -152,15 +154,25 @@ func Classify(err error, panicText string) (class int, dbErr bool) {
 	}
 	m := err.Error()
 	switch {
-	case strings.Contains(m, "check failed for db with"):
-		return Rejected, false
 	case strings.Contains(m, "unknown column"), strings.Contains(m, "only supports unique value primary keys"),
 		strings.Contains(m, "an empty list of rows given"):
 		return BadInput, false
 	case err == sql.ErrNoRows, strings.Contains(m, "expected no more than 1 result"):
 		return Proceeds, false
+	case stmtFailed:
+		return Proceeds, true
 	}
-	return Proceeds, true
+	return Rejected, false
+}
+
+// AnyFailed says whether the server answered a statement of the log with an error.
+func AnyFailed(log []fakesql.Entry) bool {
+	for _, e := range log {
+		if e.Err != "" {
+			return true
+		}
+	}
+	return false
 }
 
 // Safely runs f, turning a panic into text.
@@ -234,9 +246,11 @@ func RunBatched(db *sqlgen.DB, t *TableDesc, filters []sqlgen.Filter) *BatchResu
 			}
 			who = append(who, i)
 		}
+		// Invocations are serialised so that the order of the recorded invocations is the order of the
+		// statements in the server log even if the callers were split into several batches.
 		mu.Lock()
+		defer mu.Unlock()
 		res.Arrival = append(res.Arrival, who)
-		mu.Unlock()
 		return origMany(ctx, items)
 	}
 	bf.MaxSize, bf.WaitInterval, bf.MaxDuration = n, 40*time.Millisecond, 3*time.Second
